@@ -597,7 +597,7 @@ def pathcodec_cases(ctx, maxtoks, tokset, cases, fixed=True, force=True, expect_
 
 def check_C04(ctx):
     thorough = ctx.tier == "thorough"
-    for m in ("PathString", "PathCodec"):
+    for m in ("PathString", "PathCodec", "TimingLines", "TimingEncode"):
         sany(ctx, m)
     cases = os.path.join(ctx.work, "pathcodec.ndjson")
     pathcodec_cases(ctx, 6 if thorough else 5, "full", cases)
@@ -606,6 +606,10 @@ def check_C04(ctx):
     pathcodec_cases(ctx, 4, "full", None, fixed=False, force=False, expect_violation=True, inv=["Accepted"])
     summ = harness(ctx, ["pathcodec", "replay", "--prop", "C04"], cases_file=cases, name="pathcodec", timeout=3600)
     report_mismatches(ctx, summ, "the encoder writes a slider path its own decoder rejects / differs from PathString.EncPath")
+    # timing sections (chronological or not): every encoded line accepted, nothing dropped
+    f = timingenc_cases(ctx, "AlphaVel", "GensModes", 3 if thorough else 2)
+    summ = harness(ctx, ["timingcodec", "replay", "--prop", "C04"], cases_file=f, name="timingcodec", timeout=3600)
+    report_mismatches(ctx, summ, "the encoder writes a timing line its own decoder rejects / loses a timing point")
     # every encoded line of real and generated maps is fed back to its section parser
     summ = harness(ctx, ["encoder", "relations", "--prop", "C04", "--tier", ctx.tier], name="encoder-rel", timeout=7000)
     report_mismatches(ctx, summ, "the encoder's output is not accepted line by line / loses records")
